@@ -195,7 +195,13 @@ bool GeneratorImplAST::ViDecart(Cursor iter) {
     if (child > 0) {
       rsText += Token::Str(TokenID::DECART, syntax);
     }
-    OutputChild(iter, child, iter(child).id == TokenID::DECART);
+    const auto childID = iter(child).id;
+    const auto comparison = Token::CompareOperations(TokenID::DECART, childID);
+    const auto needBrackets =
+      childID == TokenID::DECART ||
+      comparison == Comparison::GREATER ||
+      (child > 0 && comparison == Comparison::EQUAL);
+    OutputChild(iter, child, needBrackets);
   }
   return true;
 }
